@@ -3,7 +3,8 @@
 
    harness/gen_args.py reads the Python `ast` of data.py on every run and
    writes __init__, __coerce, append, extend, insert, remove, pop, reverse,
-   clear and __getitem__ as terms of this language (Model/ArgGen.v);
+   clear and __getitem__ -- and the classmethod TexGroup.parse they rely on --
+   as terms of this language (Model/ArgGen.v);
    Proofs/ArgGenProofs.v proves that interpreting them gives exactly the
    hand-written operations of Model/Args.v (the model the C18 proofs are
    about).  NOT translated (they do not fit: list comprehension over
@@ -38,15 +39,29 @@
              parameter is only read).
    TexArgs(x)  x must be a plain list of groups: the translated __init__ runs
              on a fresh empty object; its exception, if any, propagates.
-   TexGroup.parse(s)   Args.parse_group on a str (TypeError if malformed;
-             source pinned by the translator); else OUnsup.
+   TexGroup.parse(s)   a call of the translated classmethod (M_parse; `cls` is
+             not used by it: checked).  Its vocabulary: `arg_type` is the tuple
+             (BracketGroup, BraceGroup) [pinned], iterated by `for`; a class
+             object (VCls, true = bracket) has the class attributes begin / end
+             [pinned: '[' ']' '{' '}'] and, called on one str, builds the group
+             with that content; s.startswith(p), s.endswith(p) (Args.starts_with
+             / ends_with), s[a:b] on a str (Args.py_slice), s.lstrip(cs) /
+             s.rstrip(cs) (drop the leading / trailing characters that occur in
+             cs), unary minus on an int; `assert c` (a failing assert raises
+             AssertionError, which Args.out cannot express: OUnsup);
+             `raise TypeError(msg)`.
    isinstance(x, str) / (x, (TexGroup, TexCmd)) / (x, list)   by value kind
              (TexArgs is a list subclass: a VObj is a list; self is not
              expected there: OUnsup).
    s.isspace()   Args.is_space on a str.   len(x)  self, str, plain list.
+   getattr(x, 'all', d)   (both operands are evaluated first) a newly built
+             TexArgs: its .all, as an iterable; None / bool / int / str / a plain
+             list / a slice have no such attribute: d; a group object has the
+             property TexExpr.all, a VArgs may or may not be a TexArgs, self.all
+             is the live list: OUnsup.
    + - max min < <= == (ints)   a if c else b   and / not (truth values of
              bools only).   x = e;  return e;  if/elif/else;
-   for x in e   e must be a VArgs; an exception in the body ends the loop.
+   for x in e   e must be a VArgs (or arg_type); an exception in the body ends the loop.
    Exceptions are those of Args.out (TypeError, ValueError, IndexError) and
    carry the state of self at the raise; every other error is OUnsup.  No
    unbounded loops; calls nest at most call_depth deep (OFuel beyond). *)
@@ -67,11 +82,13 @@ Inductive value :=
 | VArgs (l : list arg)
 | VSlice (lo hi : option Z)
 | VObj (st : state)
-| VSelf.
+| VSelf
+| VCls (k : bool)                    (* the class BracketGroup (true) / BraceGroup (false) *)
+| VClasses (ks : list bool).         (* a tuple of such classes *)
 
 Inductive meth :=
 | M_init | M_coerce | M_append | M_extend | M_insert | M_remove | M_pop | M_reverse
-| M_clear | M_getitem.
+| M_clear | M_getitem | M_parse.
 
 Inductive recv := RSuper | RAll.
 Inductive lop := LInit | LInsert | LRemove | LPop | LReverse | LClear | LGetitem | LIndex | LAppend.
@@ -97,6 +114,15 @@ Inductive expr :=
 | EIsSpace (a : expr)                (* a.isspace() *)
 | ELen (a : expr)
 | EParse (a : expr)                  (* TexGroup.parse(a) *)
+| EGetAllOr (a d : expr)             (* getattr(a, 'all', d) *)
+| EArgTypes                          (* arg_type *)
+| EClsAttr (e : bool) (a : expr)     (* a.begin (false) / a.end (true) of a class object *)
+| ENewGroup (c a : expr)             (* c(a): c a class object *)
+| EStartsWith (a b : expr)           (* a.startswith(b) *)
+| EEndsWith (a b : expr)
+| ESliceStr (a lo hi : expr)         (* a[lo:hi] on a str *)
+| EStrip (rt : bool) (a b : expr)    (* a.lstrip(b) (false) / a.rstrip(b) (true) *)
+| ENeg (a : expr)                    (* -a *)
 | ESliceObj (lo hi : expr)
 | ENew (a : expr)                    (* TexArgs(a) *)
 | ELop (r : recv) (o : lop) (xs : args)   (* super().o(xs) / self.all.o(xs) *)
@@ -116,6 +142,8 @@ Inductive stmt :=
 | SAssign (x : nat) (e : expr)
 | SSetAll (e : expr)                 (* self.all = e *)
 | SReturn (e : expr)
+| SAssert (c : expr)
+| SRaise (x : exn)
 | SIf (c : expr) (a b : block)
 | SFor (x : nat) (e : expr) (b : block)
 with block :=
@@ -175,6 +203,17 @@ Definition value_of_item (it : item) : value :=
 
 Definition value_of_arg (a : arg) : value :=
   match a with AG g => VGroup g | AS s => VStr s end.
+
+Definition arg_of_item (it : item) : arg :=
+  match it with IG g => AG g | IW s => AS s end.
+
+(* str.lstrip(cs): drop the leading characters that occur in cs; rstrip: the trailing ones *)
+Fixpoint lstrip_chars (cs s : pstr) : pstr :=
+  match s with
+  | [] => []
+  | c :: s' => if existsb (Z.eqb c) cs then lstrip_chars cs s' else s
+  end.
+Definition rstrip_chars (cs s : pstr) : pstr := rev (lstrip_chars cs (rev s)).
 
 Definition int2 (f : Z -> Z -> value) (a b : value) : option value :=
   match a, b with
@@ -370,14 +409,59 @@ Fixpoint eval (e : expr) (en : env) (d : state) {struct e} : eres :=
       | VGList l => EV (VInt (zlen l)) d1
       | _ => EUnsup
       end)
-  | EParse a =>
+  | EParse a => un a (fun v d1 => of_outcome (callf M_parse [v] d1))
+  | EArgTypes => EV (VClasses [true; false]) d
+  | EClsAttr e a =>
     un a (fun v d1 =>
       match v with
-      | VStr s => match parse_group s with
-                  | Some g => EV (VGroup g) d1
-                  | None => EX TypeError d1
-                  end
+      | VCls k => EV (VStr [if e then close_of k else open_of k]) d1
       | _ => EUnsup
+      end)
+  | ENewGroup c a =>
+    bin c a (fun v1 v2 d2 =>
+      match v1, v2 with
+      | VCls k, VStr s => EV (VGroup (k, s)) d2
+      | _, _ => EUnsup
+      end)
+  | EStartsWith a b =>
+    bin a b (fun v1 v2 d2 =>
+      match v1, v2 with
+      | VStr s, VStr p => EV (VBool (starts_with s p)) d2
+      | _, _ => EUnsup
+      end)
+  | EEndsWith a b =>
+    bin a b (fun v1 v2 d2 =>
+      match v1, v2 with
+      | VStr s, VStr p => EV (VBool (ends_with s p)) d2
+      | _, _ => EUnsup
+      end)
+  | ESliceStr a lo hi =>
+    un a (fun v d1 =>
+      match eval lo en d1 with
+      | EV v1 d2 =>
+        match eval hi en d2 with
+        | EV v2 d3 =>
+          match v, bound_of v1, bound_of v2 with
+          | VStr s, Some l, Some h => EV (VStr (py_slice l h s)) d3
+          | _, _, _ => EUnsup
+          end
+        | x => x
+        end
+      | x => x
+      end)
+  | EStrip rt a b =>
+    bin a b (fun v1 v2 d2 =>
+      match v1, v2 with
+      | VStr s, VStr cs => EV (VStr (if rt then rstrip_chars cs s else lstrip_chars cs s)) d2
+      | _, _ => EUnsup
+      end)
+  | ENeg a => un a (fun v d1 => match v with VInt z => EV (VInt (- z)) d1 | _ => EUnsup end)
+  | EGetAllOr a b =>
+    bin a b (fun v1 v2 d2 =>
+      match v1 with
+      | VObj st => EV (VArgs (map arg_of_item (snd st))) d2
+      | VNone | VBool _ | VInt _ | VStr _ | VGList _ | VSlice _ _ => EV v2 d2
+      | VGroup _ | VArgs _ | VSelf | VCls _ | VClasses _ => EUnsup
       end)
   | ESliceObj lo hi =>
     bin lo hi (fun v1 v2 d2 =>
@@ -434,12 +518,12 @@ with eval_args (xs : args) (en : env) (d : state) {struct xs} : ares :=
     end
   end.
 
-Fixpoint for_loop (body : env -> state -> xres) (x : nat) (l : list arg) (en : env) (d : state)
+Fixpoint for_loop (body : env -> state -> xres) (x : nat) (l : list value) (en : env) (d : state)
   : xres :=
   match l with
   | [] => XNormal en d
   | a :: l' =>
-    match body (set_var en x (value_of_arg a)) d with
+    match body (set_var en x a) d with
     | XNormal en' d' => for_loop body x l' en' d'
     | r => r
     end
@@ -476,6 +560,15 @@ Fixpoint exec_stmt (s : stmt) (en : env) (d : state) {struct s} : xres :=
     | EUnsup => XUnsup
     | EFuel => XFuel
     end
+  | SAssert c =>
+    match eval c en d with
+    | EV (VBool true) d1 => XNormal en d1
+    | EV _ _ => XUnsup
+    | EX x d1 => XExc x d1
+    | EUnsup => XUnsup
+    | EFuel => XFuel
+    end
+  | SRaise x => XExc x d
   | SIf c a b =>
     match eval c en d with
     | EV (VBool true) d1 => exec_block a en d1
@@ -487,7 +580,8 @@ Fixpoint exec_stmt (s : stmt) (en : env) (d : state) {struct s} : xres :=
     end
   | SFor x e b =>
     match eval e en d with
-    | EV (VArgs l) d1 => for_loop (exec_block b) x l en d1
+    | EV (VArgs l) d1 => for_loop (exec_block b) x (map value_of_arg l) en d1
+    | EV (VClasses ks) d1 => for_loop (exec_block b) x (map VCls ks) en d1
     | EV _ _ => XUnsup
     | EX x' d1 => XExc x' d1
     | EUnsup => XUnsup
